@@ -869,13 +869,13 @@ class HeteroscedasticConditional(conditional.ConditionalGaussianPDF):
             Integrated covariance matrix.
         """
         # int f(h(z)) dphi(z)
-        D_int = self._integrate_noise_diagonal(p_x)
+        D_int = self._integrate_noise_diagonal(p_x).reshape((p_x.R, self.Dk))
         # rotation_mat_int = jnp.eye(self.Dy)[None] + jnp.einsum(
         #    "abc,dc->abd", self.U[None] * D_int[:, None], self.U
         # )
         Sigma_int = self.Sigma + jnp.einsum(
-            "ab,cb->ac", jnp.einsum("ab,b->ab", self.A[0,:,:self.Dk], D_int), self.A[0,:,:self.Dk]
-        )[None]
+            "rab,cb->rac", jnp.einsum("ab,rb->rab", self.A[0,:,:self.Dk], D_int), self.A[0,:,:self.Dk]
+        )
         Sigma_int = 0.5 * (Sigma_int + jnp.swapaxes(Sigma_int, -2, -1))
         return Sigma_int
     
@@ -1288,13 +1288,13 @@ class HeteroscedasticHeavisideConditional(HeteroscedasticConditional):
         def integrate_f_i(w_i, w0_i):
             p_h = p_x.get_density_of_linear_sum(w_i[None, None], w0_i[None, None])
             tp_h = truncated_measure.TruncatedGaussianMeasure(measure=p_h, lower_limit=0., upper_limit=jnp.inf)
-            D_i_int = tp_h.integral()[0]
+            D_i_int = tp_h.integral()
             return D_i_int
         #D_int = []
         #for i in range(self.Dk):
         #    D_int.append(integrate_f_i(w[i], w0[i]))
         #D_int = jnp.stack(D_int, axis=0)
-        D_int = vmap(integrate_f_i, in_axes=(0,0))(w, w0)
+        D_int = vmap(integrate_f_i, in_axes=(0,0))(w, w0).T
         return D_int
     
     def get_lb_log_det(self, p_x: pdf.GaussianPDF) -> Float[Array, "N"]:
@@ -1388,13 +1388,13 @@ class HeteroscedasticReLUConditional(HeteroscedasticConditional):
         def integrate_f_i(w_i, w0_i):
             p_h = p_x.get_density_of_linear_sum(w_i[None, None], w0_i[None, None])
             tp_h = truncated_measure.TruncatedGaussianMeasure(measure=p_h, lower_limit=0., upper_limit=jnp.inf)
-            D_i_int = tp_h.integrate('x')[0,0]
+            D_i_int = tp_h.integrate('x')[:,0]
             return D_i_int
         #D_int = []
         #for i in range(self.Dk):
         #    D_int.append(integrate_f_i(w[i], w0[i]))
         #D_int = jnp.stack(D_int, axis=0)
-        D_int = vmap(integrate_f_i, in_axes=(0,0))(w, w0)
+        D_int = vmap(integrate_f_i, in_axes=(0,0))(w, w0).T
         return D_int
 
     @staticmethod
